@@ -249,8 +249,10 @@ PROPS['C15'] = {
 PROPS['C16'] = {
     'theorems': ['RQ.C16_strip_components', 'RQ.C16_no_cur', 'RQ.C16_no_alias', 'RQ.C16_comment_ignored', 'RQ.C16_default_strip', 'RQ.C16_choose_is_name', 'RQ.C16_choose_old_iff'],
     'verdict': 'SPEC',
-    'jobs': push_jobs(['inv=2'], ['inv=3']) + [{'quick': ['series', 'seed={seed}', 'n=30000'], 'thorough': ['series', 'seed={seed}', 'n=600000']},
-                                               {'quick': ['path', 'seed={seed}', 'n=20000', 'pieces=3'], 'thorough': ['path', 'seed={seed}', 'n=400000', 'pieces=4']}],
+    'jobs': push_jobs(['inv=2'], ['inv=3'], nq=4000) + push_jobs(['inv=2', 'threads=2,3,4'], ['inv=3', 'threads=2,3,4,8'], nq=2000, nt=50000) +
+            [{'quick': ['series', 'seed={seed}', 'n=30000'], 'thorough': ['series', 'seed={seed}', 'n=600000']},
+             {'quick': ['path', 'seed={seed}', 'n=20000', 'pieces=3'], 'thorough': ['path', 'seed={seed}', 'n=400000', 'pieces=4']}],
+    'par_verdict': 'C06',
     'nontrivial': lambda l: not l.startswith('W|') or push_nontrivial(l),
     'histogram': lambda c, d: push_hist(c, d) if c.startswith('W|') else ['engine=' + c[:1]],
     'rule': PUSH_RULE + "; series engine: files of 0-4 lines built from patch names, -pN/-p N/--strip=N/--strip N/-R/--reverse, "
@@ -361,7 +363,7 @@ PROPS['C13'] = {
 
 
 PROPS['C05'] = {
-    'theorems': ['RQ.Abs.C05_apply_refines', 'RQ.Abs.C05_exit_and_names'],
+    'theorems': ['RQ.Abs.C05_apply_refines', 'RQ.Abs.C05_tree_on_disk', 'RQ.Abs.C05_exit_and_names'],
     'verdict': 'SPEC',
     'jobs': push_jobs(['inv=2', 'patches=5'], ['inv=3', 'patches=6'], nq=4000) +
             [{'quick': ['pushsched', 'seed={seed}', 'n=900', 'perws=3', 'fail=75', 'morefail=70'], 'thorough': ['pushsched', 'seed={seed}', 'n=30000', 'perws=6', 'fail=75', 'morefail=70']}],
@@ -429,7 +431,7 @@ PROPS['C18'] = {
 
 
 PROPS['C06'] = {
-    'theorems': ['RQ.Par.C06_apply_phase', 'RQ.Par.C06_queues_sorted', 'RQ.Par.C06_frame', 'RQ.Par.C06_local', 'RQ.Par.C06_commute', 'RQ.Par.C06_disjoint'],
+    'theorems': ['RQ.Par.C06_apply_phase', 'RQ.Par.C06_save_phase', 'RQ.Par.C06_error_index', 'RQ.Par.C06_queues_sorted', 'RQ.Par.C06_frame', 'RQ.Par.C06_local', 'RQ.Par.C06_commute', 'RQ.Par.C06_disjoint'],
     'verdict': 'C06',
     'jobs': [{'quick': ['pushsched', 'seed={seed}', 'n=900', 'perws=3', 'fail=75', 'morefail=70'], 'thorough': ['pushsched', 'seed={seed}', 'n=30000', 'perws=6', 'fail=75', 'morefail=70']}] +
             push_jobs(['threads=2,3,4,8,16', 'inv=2'], ['threads=2,3,4,8,16', 'inv=3'], nq=2500, nt=60000),
